@@ -9,7 +9,10 @@
 typedef struct fiber_barrier {
   uint32_t count;
   _Atomic uint64_t counter;
-  mpsc_fifo_t waiters;
+  // consecutive rounds use alternate wait lists: a fiber released from round k
+  // may re-enter (round k+1) while the serial fiber of round k is still
+  // waking the others; it must not be mistaken for a round-k waiter
+  mpsc_fifo_t waiters[2];
 } fiber_barrier_t;
 
 #define FIBER_BARRIER_SERIAL_FIBER (1)
